@@ -7,12 +7,13 @@ from .mainloop import MainLoop
 from .c02 import soft_threshold_merged
 
 SCALAR_TAGS = ['float', 'int', 'np.float64', 'np.float32', 'np.int64']
+MORE_TAGS = ['np.float16', 'np.int32']
 
 
 def tagged(c, name, tag, lo=0):
     """A non-negative hyper-parameter value of the given type form.  Integer
     forms carry an integer value (the same numeric value is used for all forms)."""
-    if tag in ('int', 'np.int64'):
+    if tag in ('int', 'np.int64', 'np.int32'):
         v = c.int(name, lo, 5)
         return core.SymInt(v.e, tag), core.SymReal(z3.ToReal(v.e), 'float')
     v = c.real(name, lo, 5)
@@ -45,18 +46,22 @@ class C18(Check):
                          '        return float(lambda_parameter) * num_blocks')]}
 
     def bounds(self, tier):
-        return {'(N,W)': [(1, 1), (2, 1), (1, 2), (1, 3)] if tier == 'quick' else [(1, 1), (2, 1), (1, 2), (2, 2), (1, 3), (3, 1), (1, 4)],
-                'type forms': SCALAR_TAGS, 'kernel': 'T<=3,K=2', 'filter': '2x2'}
+        return {'(N,W)': [(1, 1), (2, 1), (1, 2), (1, 3)] if tier == 'quick' else [(1, 1), (2, 1), (1, 2), (2, 2), (1, 3), (3, 1), (1, 4), (2, 3), (3, 2), (4, 1), (1, 5), (2, 4), (3, 3)],
+                'type forms': SCALAR_TAGS if tier == 'quick' else SCALAR_TAGS + MORE_TAGS, 'kernel': 'T<=3,K=2' if tier == 'quick' else 'T<=5,K<=3', 'filter': '2x2',
+                'end to end': '1..2 series of 2..3 points' if tier == 'quick' else '1..3 series of 2..3 points'}
 
     def configs(self, tier):
         cfgs = []
+        tags = SCALAR_TAGS if tier == 'quick' else SCALAR_TAGS + MORE_TAGS
         for (N, W) in self.bounds(tier)['(N,W)']:
             cfgs.append(Config('lambda_value_N%d_W%d' % (N, W), self.lam_value, {'N': N, 'W': W}, nonlinear=True))
-            for tag in SCALAR_TAGS:
+            for tag in tags:
                 cfgs.append(Config('lambda_type_%s_N%d_W%d' % (tag, N, W), self.lam_type, {'N': N, 'W': W, 'tag': tag},
                                    nonlinear=True, witness_every=1, robust=True))
-        for tag in SCALAR_TAGS:
-            cfgs.append(Config('beta_%s' % tag, self.beta, {'T': 3, 'K': 2, 'tag': tag}))
+        for tag in tags:
+            for (T, K) in ([(3, 2)] if tier == 'quick' else [(3, 2), (4, 2), (5, 2), (3, 3), (4, 3)]):
+                cfgs.append(Config('beta_%s_T%d_K%d' % (tag, T, K), self.beta, {'T': T, 'K': K, 'tag': tag},
+                                   split=3 if T * K > 9 else None))
             cfgs.append(Config('floor_%s' % tag, self.floor, {'tag': tag}))
         cfgs.append(Config('forward_single', self.forward, {'joint': False}))
         cfgs.append(Config('forward_joint', self.forward, {'joint': True}))
